@@ -5,8 +5,12 @@ Steps of a run
   1. lake build Props.C20 (theorems about the loader model + `decide` obligation over the regenerated tables)
   2. tree stream  : real parser.New(...).Load into an untyped probe  vs  Lean `Config.load`  (+ leaf-wise SPEC oracle)
   3. typed stream : real config.NewConfiguration on a complete file  vs  the same configuration split between file and
-                    environment (the related loads the property talks about), with the real schema validation
+                    environment (the related loads the property talks about), with the real schema validation; and the
+                    complete file with some leaves defined to be nil by the environment vs the file without them
   4. type stream  : every mechanism/cache type the loader registers must pass the file validation
+  5. values stream: value shapes per leaf type from file and environment; one text per leaf where the file / only the
+                    defaults / nothing defines the leaf (environment wins, file = environment, Lean load + decode)
+  6. history stream
 """
 import collections
 import copy
@@ -22,6 +26,7 @@ import vlib
 PID = "C20"
 KNOWN = "C20-file-validated-alone"
 KNOWN_RETYPED = "C20-env-value-retyped"
+KNOWN_NIL_ELEM = "C20-nil-list-element"      # proposed in design/C20.md (counted; printed once it is in known_findings.json)
 EXTRACTOR = os.path.join(vlib.VERIF, "extract", "config_schema", "extract.py")
 GEN_FILE = os.path.join(vlib.LEAN, "HeimdallModel", "Gen", "ConfigSchema.lean")
 
@@ -95,11 +100,24 @@ def l1_compare(case, i, m):
     return "the loaded configuration differs from the proved model"
 
 
-def l1_shrink(exe, case):
+def nil_element_only(spec_result):
+    """does the leaf-wise rule object only at places a variable with a nil value addresses inside a list?"""
+    s = spec_result.get("stats", {}) if isinstance(spec_result, dict) else {}
+    bad = [vlib.canon(p) for p in s.get("bad", [])]
+    holes = {vlib.canon(p) for p in s.get("holes", [])}
+    return bool(bad) and all(p in holes for p in bad)
+
+
+def l1_shrink(exe, case, spec_only=False):
     def fails(c):
         i = vlib.run_cases([exe], [c])[0]
         m = vlib.run_cases(vlib.driver_cmd(), [c])[0]
-        return l1_compare(c, i, m) is not None
+        if l1_compare(c, i, m) is not None:
+            return True
+        if spec_only and is_tree(i):
+            sp = vlib.run_cases(vlib.driver_cmd(), [dict(c, op="spec", result=i[0])])[0]
+            return vlib.res_of(sp) is not True and not nil_element_only(sp)
+        return False
 
     def with_env(env):
         c = copy.deepcopy(case)
@@ -145,15 +163,22 @@ def l1_stream(R, exe, cases, label):
         if vlib.res_of(s) is not True:
             spec_bad[k] = s
     bad = []
+    st = collections.Counter()
     for k, (c, i, m) in enumerate(zip(cases, impl, model)):
         why = l1_compare(c, i, m)
+        if not why and k in spec_bad and nil_element_only(spec_bad[k]):
+            # the implementation does what the proved model says (c20_env_nil_element_ignored) and the leaf-wise rule
+            # objects only at list positions a variable defines to be nil: the known finding, nothing else
+            st["known_nil_element"] += 1
+            R.known_hits[KNOWN_NIL_ELEM] = R.known_hits.get(KNOWN_NIL_ELEM, 0) + 1
+            continue
         if why or k in spec_bad:
             bad.append((k, c, i, m, why, spec_bad.get(k)))
-    st = collections.Counter()
     nontriv = set()
     for c, m in zip(cases, model):
         s = m.get("stats", {}) if isinstance(m, dict) else {}
-        for key in ("env", "env_list_leaves", "env_overrides", "file_leaves", "default_leaves", "result_leaves"):
+        for key in ("env", "env_list_leaves", "env_overrides", "env_nil", "env_nil_overrides", "env_holes", "file_leaves",
+                    "default_leaves", "result_leaves"):
             st[key] += s.get(key, 0)
         st["depth_max"] = max(st["depth_max"], s.get("depth", 0))
         if not s.get("ok", False):
@@ -161,7 +186,7 @@ def l1_stream(R, exe, cases, label):
         if s.get("env", 0) >= 2 and s.get("env_list_leaves", 0) >= 1 and (s.get("file_leaves", 0) + s.get("default_leaves", 0)) >= 1:
             nontriv.add(vlib.case_hash(c))
     for k, c, i, m, why, sb in bad[:3]:
-        sc = l1_shrink(exe, c)
+        sc = l1_shrink(exe, c, spec_only=not why)
         si = vlib.run_cases([exe], [sc])[0]
         sm = vlib.run_cases(vlib.driver_cmd(), [sc])[0]
         w = l1_compare(sc, si, sm) or why or "the leaf-wise rule (environment over file over defaults) rejects the loaded configuration"
@@ -222,11 +247,27 @@ def l2_eval(exe, plans):
     return res
 
 
-def l2_verdict(base, r, valid_alone):
-    """'ok' | 'known' | description of a violation"""
+def drop_nil_members(t):
+    """a map member that is nil and an absent one are the same configuration (Spec: `showsLeaf`, `≈`)"""
+    if isinstance(t, dict):
+        return {k: drop_nil_members(v) for k, v in t.items() if v is not None}
+    if isinstance(t, list):
+        return [drop_nil_members(v) for v in t]
+    return t
+
+
+def plan_has_nil(case):
+    return any(e[2] is None for e in case.get("env", []))
+
+
+def l2_verdict(base, r, valid_alone, nil=False):
+    """'ok' | 'known' | description of a violation. nil: the environment defines leaves to be nil, the reference is the
+    configuration without them (members of free-form maps then hold nil instead of being absent)"""
     if not is_tree(base):
         return "ok"      # judged by the caller (base failures are compared with the environment-only load)
     if vlib.canon(r) == vlib.canon(base):
+        return "ok"
+    if nil and is_tree(r) and vlib.canon(drop_nil_members(r)) == vlib.canon(drop_nil_members(base)):
         return "ok"
     if is_err(r) and valid_alone != ["ok"]:
         return "known"   # the file part alone is no valid configuration; the merged one is (base loads)
@@ -247,7 +288,7 @@ def l2_shrink(exe, plan, rngseed):
         if not is_tree(base):
             return False
         _, _, r, va = rs[0]
-        return l2_verdict(base, r, va) not in ("ok", "known")
+        return l2_verdict(base, r, va, plan_has_nil(case)) not in ("ok", "known")
     if not fails(plan):
         return plan
     return vlib.ddmin(plan, fails)
@@ -265,6 +306,13 @@ def l2_stream(R, exe, n_groups, required):
             case["mode"] = mode
             pls.append((pl, case))
         plans.append((cfg, pls))
+        # the environment defines leaves of the complete file to be nil: a group of its own, the reference is the
+        # configuration without those leaves
+        pl = gen_config.gen_nil_plan(rng, cfg, required)
+        if any("nil" in e for e in pl):
+            case = gen_config.plan_case(pl, rng)
+            case["mode"] = "nil"
+            plans.append((gen_config.plan_config(pl), [(pl, case)]))
     res = l2_eval(exe, plans)
     # model self-check: the model merges file part and environment part to the complete configuration
     mcases, mref = [], []
@@ -294,10 +342,13 @@ def l2_stream(R, exe, n_groups, required):
             mode = case.get("mode")
             st["loads"] += 1
             st["env_vars"] += len(case["env"])
-            v = l2_verdict(base, r, va)
+            v = l2_verdict(base, r, va, mode == "nil")
             if v == "ok":
                 st["equal_" + mode] += 1
                 if case["env"] and any(isinstance(s, int) for e in pl if e["env"] for s in e["path"]):
+                    nontriv.add(vlib.case_hash(case))
+                if mode == "nil":
+                    st["nil_leaves"] += len(case["env"])
                     nontriv.add(vlib.case_hash(case))
             elif v == "known":
                 st["known_" + mode] += 1
@@ -310,13 +361,13 @@ def l2_stream(R, exe, n_groups, required):
                     scase = gen_config.plan_case(spl, None, rep=6)
                     scfg = gen_config.plan_config(spl)
                     (sb, srs), = l2_eval(exe, [(scfg, [(spl, scase)])])
-                    R.violation("typed stream: " + l2_verdict(sb, srs[0][2], srs[0][3]) + "; environment "
+                    R.violation("typed stream: " + l2_verdict(sb, srs[0][2], srs[0][3], plan_has_nil(scase)) + "; environment "
                                 + json.dumps([e[:2] for e in scase["env"]][:6]) + " file " + str(scase.get("file"))[:200],
                                 {"kind": "cfg", "config": scfg, "case": scase, "impl_complete_file": sb,
                                  "impl_split": srs[0][2]})
     mbad = 0
     for mc, ref, mo in zip(mcases, mref, mout):
-        if vlib.canon(vlib.res_of(mo)) != vlib.canon(ref):
+        if vlib.canon(drop_nil_members(vlib.res_of(mo))) != vlib.canon(ref):
             mbad += 1
             if mbad <= 2:
                 R.violation("model: file part and environment part do not merge to the complete configuration "
@@ -523,6 +574,151 @@ def leaf_stream(R, exe, quads):
 
 
 # ---------------------------------------------------------------------------------------------------------------
+# stream 5b: one text of a variable for one leaf of every kind (string, int, bool, duration, list element, typed member
+# of a structure in a list, member of a free-form map; top level and below list entries) where the FILE defines the
+# leaf with another value (F), where only the DEFAULTS define it (D) and where nothing defines it (N); R / RD: the
+# file says the very text at that place. Spec: the environment wins for exactly that leaf (F gives what N gives, the
+# sibling leaf of the file stays), file and environment are equivalent (R gives what N gives, RD what D gives).
+# Model: Lean loader model followed by the Lean decoding model (driver op `leafload`).
+
+ZERO = {"string": "", "int": 0, "bool": False, "text": "0s", "any": None}
+
+
+def site_leaf(r, path):
+    """the leaf at `path` in what the harness shows for the typed probe; a failed load is its own leaf"""
+    if not (isinstance(r, list) and len(r) == 1):
+        return {"outcomes": r}
+    r = r[0]
+    if not isinstance(r, dict):
+        return r                                    # "err:decode", "panic", ...
+    if path[0] == "n":
+        return r.get("n." + path[1])
+    if path == ["p"]:
+        return r.get("p", "")                       # the optional pointer field: unset = empty
+    node = r
+    for seg in path:
+        if isinstance(seg, int):
+            node = node[seg] if isinstance(node, list) and seg < len(node) else None
+        else:
+            node = node.get(seg) if isinstance(node, dict) else None
+    return node
+
+
+def site_expect(typ, leaf, default):
+    """what the harness shows for a model leaf; (False, _) when the model does not say"""
+    if leaf == "zero":
+        return True, (default if default is not None else ZERO[typ])
+    if leaf == "unsupported" or (isinstance(leaf, dict) and "text" in leaf):
+        return False, None
+    if isinstance(leaf, dict) and "raw" in leaf:
+        return True, leaf["raw"]
+    return True, leaf                                # a value, "err:decode" or "panic"
+
+
+def site_judge(site, obs, model=None):
+    """(violations, known) for one site/text. obs: scenario -> observed leaf (and "sib": sibling leaf under F)"""
+    bad, known = [], 0
+    path, typ, text = site["path"], site["type"], site["text"]
+    where = ".".join(map(str, path))
+    what = f"{typ} property {where}, variable value {json.dumps(text)}"
+    nil_elem = isinstance(path[-1], int) and site.get("reading", "?") is None
+    if model is not None:
+        for sc, dflt in (("N", None), ("F", None), ("D", site["default"])):
+            if sc in obs and sc in model:
+                says, exp = site_expect(typ, model[sc], dflt)
+                if says and vlib.canon(obs[sc]) != vlib.canon(exp):
+                    bad.append(f"{what}: the loaded leaf is {json.dumps(obs[sc])}, the proved model says {json.dumps(exp)} "
+                               f"({'file defines ' + json.dumps(site['other']) if sc == 'F' else 'defaults define the leaf' if sc == 'D' else 'nothing else defines the leaf'})")
+    if vlib.canon(obs["F"]) != vlib.canon(obs["N"]):
+        if nil_elem and vlib.canon(obs["F"]) == vlib.canon(site["other"]):
+            known += 1          # a nil value for a list position changes nothing: C20-nil-list-element, exactly that
+        else:
+            bad.append(f"{what}: the environment does not win over the file: the file says {json.dumps(site['other'])}, the "
+                       f"result is {json.dumps(obs['F'])}; without the file the variable gives {json.dumps(obs['N'])}")
+    if not isinstance(obs["F"], (str,)) or not str(obs["F"]).startswith(("err:", "panic")):
+        if "sib" in obs and vlib.canon(obs["sib"]) != vlib.canon(site["sibling"][1]):
+            bad.append(f"{what}: the variable changes another leaf: {'.'.join(map(str, site['sibling'][0]))} of the file is "
+                       f"{json.dumps(site['sibling'][1])}, loaded {json.dumps(obs['sib'])}")
+    for a, b in (("R", "N"), ("RD", "D")):
+        if a in obs and b in obs and obs[a] != "err:configuration" and vlib.canon(obs[a]) != vlib.canon(obs[b]):
+            bad.append(f"{what}: the same text in the file{' (over defaults)' if a == 'RD' else ''} gives "
+                       f"{json.dumps(obs[a])}, in the environment {json.dumps(obs[b])}")
+    return bad, known
+
+
+def site_observe(exe, site):
+    order = sorted(site["impl"])
+    out = vlib.run_cases([exe], [site["impl"][k] for k in order])
+    obs = {k: site_leaf(r, site["path"]) for k, r in zip(order, out)}
+    obs["sib"] = site_leaf(out[order.index("F")], site["sibling"][0])
+    return obs
+
+
+def site_stream(R, exe):
+    st = collections.Counter()
+    sites = gen_config.site_cases()
+    texts = sorted({s["text"] for s in sites})
+    ys = vlib.run_cases([exe], [{"fam": "config", "op": "yaml", "raw": texts}])[0]
+    if not isinstance(ys, list) or len(ys) != len(texts):
+        R.violation("values stream: the harness does not report YAML readings", {"impl": ys}, no_input=True)
+        return st, set()
+    reading = dict(zip(texts, ys))
+    icases, index, mcases, mindex = [], [], [], []
+    for k, s in enumerate(sites):
+        s["reading"] = reading[s["text"]]
+        for sc in sorted(s["impl"]):
+            index.append((k, sc))
+            icases.append(s["impl"][sc])
+        name = s["impl"]["N"]["env"][0][0]
+        env = [[name, s["text"], s["reading"]]]
+        base = {"fam": "config", "op": "leafload", "type": s["type"], "path": s["path"], "env": env}
+        for sc in ("N", "D"):
+            if sc in s["impl"]:
+                mindex.append((k, sc))
+                mcases.append(base)
+        mindex.append((k, "F"))
+        mcases.append(dict(base, file=json.dumps(s["file_tree"])))
+    iout = run_parallel([exe], icases)
+    mout = vlib.run_cases(vlib.driver_cmd(), mcases)
+    obs = [dict() for _ in sites]
+    raw = [dict() for _ in sites]
+    for (k, sc), r in zip(index, iout):
+        obs[k][sc] = site_leaf(r, sites[k]["path"])
+        raw[k][sc] = r
+    for k, s in enumerate(sites):
+        obs[k]["sib"] = site_leaf(raw[k]["F"], s["sibling"][0])
+    model = [dict() for _ in sites]
+    for (k, sc), m in zip(mindex, mout):
+        if isinstance(m, dict) and "res" in m:
+            model[k][sc] = m["res"]
+        else:
+            st["site_model_skipped"] += 1         # a reading outside the model (timestamp)
+    nontriv = set()
+    shown = 0
+    for k, s in enumerate(sites):
+        st["site_cases"] += 1
+        st["site_loads"] += len(s["impl"])
+        bad, known = site_judge(s, obs[k], model[k])
+        if s["reading"] is None:
+            st["site_nil_values"] += 1
+        if s["reading"] != s["text"]:
+            nontriv.add((tuple(s["path"]), s["text"]))
+        if known:
+            st["known_nil_element"] += known
+            R.known_hits[KNOWN_NIL_ELEM] = R.known_hits.get(KNOWN_NIL_ELEM, 0) + known
+        if bad:
+            st["site_violations"] += 1
+            if shown < 4:
+                shown += 1
+                R.violation("values stream: " + bad[0],
+                            {"kind": "site", "site": {x: s[x] for x in s if x != "impl"}, "cases": s["impl"],
+                             "impl": {x: obs[k][x] for x in obs[k]}, "model": model[k], "all": bad})
+        else:
+            st["site_ok_" + s["type"]] += 1
+    return st, nontriv
+
+
+# ---------------------------------------------------------------------------------------------------------------
 # stream 6: histories. Several NewConfiguration loads in ONE process; every result must be what the same load gives
 # as the first load of a fresh process (the model is a function of file + environment, `c20_history_independent`),
 # and a configuration returned earlier must not change by later loads
@@ -649,7 +845,7 @@ def corpus_groups(R, exe, groups, st):
                 R.violation("corpus: the complete file no longer loads: " + g.get("name", ""),
                             {"kind": "cfg-base", "config": cfg, "impl_file": base})
                 continue
-            v = l2_verdict(base, r, va)
+            v = l2_verdict(base, r, va, plan_has_nil(case))
             if v not in ("ok",):
                 R.violation(f"corpus {g.get('name', '')}: " + (v if v != "known" else "file part rejected"),
                             {"kind": "cfg", "config": cfg, "case": case, "impl_complete_file": base, "impl_split": r})
@@ -708,11 +904,14 @@ def run(R):
     corpus_groups(R, exe, groups, st2)
     st3 = schema_stream(R, exe, facts) if facts is not None else collections.Counter()
     st4, nt4 = leaf_stream(R, exe, gen_config.leaf_cases())
+    st4b, nt4b = site_stream(R, exe)
+    st4.update(st4b)
+    nt4 |= nt4b
     n5 = 40 if quick else 400
     st5, nt5 = history_stream(R, exe, hists + [gen_config.gen_history(R.rng) for _ in range(n5)])
     R.coverage.update({
         "evaluations": n_l1 + st2["loads"] + st2["groups"] + 2 * st3["types_checked"] + 2 * st4["value_cases"]
-                       + 2 * st5["history_loads"],
+                       + st4["site_loads"] + 2 * st5["history_loads"],
         "distinct_nontrivial": len(nt1) + len(nt2) + len(nt4) + len(nt5),
         "rule": "tree stream: a random configuration tree (maps, lists of scalars, lists of structures, nested lists; "
                 "scalars incl. strings that need quoting) whose leaves are distributed over defaults / file / "
@@ -727,7 +926,18 @@ def run(R):
                 "distinct by hash of the case. values stream: every value shape (number-, bool-looking, non-canonical numerals, "
                 "ordinary) for string / int / bool / duration leaves (top level, nested, pointer) from the file and in plain "
                 "spelling from the environment through the real typed decoding, compared with Lean `decode` and with each other; "
-                "non-trivial = YAML reads the spelling as something else than the text. history stream: 3-4 NewConfiguration "
+                "non-trivial = YAML reads the spelling as something else than the text. nil values: in the tree stream about "
+                "one variable in 14 has a value YAML reads as nil (empty, blanks, null, ~, Null, NULL, unreadable text), most "
+                "of them for a leaf file or defaults define too, below the top level and below list entries, some at list "
+                "positions (known finding C20-nil-list-element), and the file says null at some properties; in the typed "
+                "stream every configuration is also loaded with 1-3 of the leaves of its complete file defined to be nil by "
+                "the environment (reference: the configuration without them); in the values stream 19 texts (nil-like, "
+                "true, yes, 0x10, 1e3, [], {}, quoted, with `: ` or `#`, `|`, `-`) x 13 leaves (string, int, bool, duration, "
+                "pointer, list element, typed member of a structure in a list, member of a free-form map at the top and "
+                "inside lists) are loaded where the file defines the leaf with another value, where only the defaults "
+                "define it, where nothing defines it, and with the same text in the file; compared with each other "
+                "(environment wins, sibling leaf stays, file = environment) and with the Lean loader + decoding model. "
+                "history stream: 3-4 NewConfiguration "
                 "loads (file / environment / override, cache.config leaves, services, mechanisms) in one process, every result "
                 "compared with the same load in a fresh process and re-inspected after the later loads; non-trivial = a "
                 "load defines cache.config leaves and the loads give different configurations",
@@ -745,8 +955,11 @@ def run(R):
     R.assumptions += [
         "typed decoding (mapstructure, decode hooks) is a parameter of the model: the tree stream observes the merged "
         "tree before decoding, the typed stream compares real Configuration values of related loads with each other",
-        "values of environment variables are YAML scalars (a value YAML reads as a collection or as null is outside "
-        "the model); property names are lower case, without '.', not starting with '_' and not numeric (Spec.keyOk)",
+        "values of environment variables are YAML scalars or nil in the tree model (a value YAML reads as a collection "
+        "is covered by the values stream only, as the scalar kind `coll`); a nil value is the scalar Val.nil under a map "
+        "key and a hole at a list position (Go cannot tell a nil slice entry from padding); the top level of the tree "
+        "probe is a struct, nil values are generated below it; property names are lower case, without '.', not starting "
+        "with '_' and not numeric (Spec.keyOk)",
         "the order in which the loader visits variables is a Go map order; the model folds in enumeration order and "
         "c20_perm proves the order irrelevant, the harness repeats every load to sample map orders",
         "the YAML reading of the text of an environment variable is taken from the real library (harness op yaml) and "
@@ -790,7 +1003,7 @@ def replay(R, path):
         (base, rs), = l2_eval(exe, [(cfg, [([], case)])])
         print("complete file:", json.dumps(base)[:300])
         print("split        :", json.dumps(rs[0][2])[:300])
-        v = l2_verdict(base, rs[0][2], rs[0][3]) if is_tree(base) else "the complete file does not load"
+        v = l2_verdict(base, rs[0][2], rs[0][3], plan_has_nil(case)) if is_tree(base) else "the complete file does not load"
         if v not in ("ok", "known"):
             R.violation("replay: " + v, {"kind": "cfg", "config": cfg, "case": case, "impl_complete_file": base, "impl_split": rs[0][2]})
     elif kind == "leaf":
@@ -803,6 +1016,16 @@ def replay(R, path):
             R.violation("replay: the value arrives differently from file and environment", dict(p, impl_file=fi, impl_env=ei))
         elif me is not None and ei != me:
             R.violation("replay: the decoded value differs from the model", dict(p, impl_file=fi, impl_env=ei))
+    elif kind == "site":
+        site = dict(p["site"], impl=p["cases"])
+        obs = site_observe(exe, site)
+        for sc, what in (("N", "variable alone          "), ("F", "variable over the file   "), ("D", "variable over defaults   "),
+                         ("R", "the text in the file     "), ("RD", "... over defaults        ")):
+            if sc in obs:
+                print(what, ":", json.dumps(obs[sc]))
+        bad, known = site_judge(site, obs)
+        if bad:
+            R.violation("replay: " + bad[0], dict(p, impl=obs, all=bad))
     elif kind == "history":
         v = history_verdict(exe, p["case"])
         print("verdict:", v[0] if v else "every load equals its fresh-process twin, nothing changed afterwards")
